@@ -32,7 +32,10 @@ MANIFEST = dict(
           "a body and a missing final newline never change what is read. The same enumeration (every file x every layout, ~10.7k cases quick, "
           "~174k thorough) is rendered to bytes, decoded by the real provider (plugin constructor, mem fs, Run/Acquire/Release) and each request "
           "(method, RequestURI, Host, canonical headers, body bytes, tag) for two passes and one extra entry is compared by TLC; large random "
-          "files (200 entries, 64 KiB binary bodies) go through the same trace spec. Right level: the property quantifies over file contents and "
+          "files (200 entries, 64 KiB binary bodies) go through the same trace spec. The alphabets deliberately cross the readers' buffer sizes: "
+          "request lines, tags and header values of 4-5 KB in every exhaustive pool and up to 70 000 bytes in the random files (uri: below bufio.Scanner's "
+          "64 KiB limit), bodies at 4096/8192/65536 +-1, tags with runs of blanks, tabs and a leading blank, odd URI characters; half of the layouts are "
+          "read with preload. Right level: the property quantifies over file contents and "
           "layouts, which is a finite case function TLC can enumerate completely for small files; the unit tests have one fixture per decoder."),
     note=("Small-scope exhaustive (<= 4 items over pools of 3-4 entries / 4 header lines per format) + sampled large scope. Trusted: the renderers "
           "(harness/cmd/vdrive/ammofmt_render.go, written against docs/eng/providers.md), the projection, TLC. Provider option `headers` left empty "
@@ -42,8 +45,8 @@ MANIFEST = dict(
 
 def sig(row, inv):
     c = al.case_class(row)
-    return "fmt=%s style=%s inv=%s sep=%d final=%d last=%s outcome=%s src=%s" % (
-        c["fmt"], c["style"], inv, c["sep"], c["final"], c["last"], row["obs"]["outcome"], c["src"])
+    return "fmt=%s style=%s mode=%s inv=%s sep=%d final=%d last=%s outcome=%s src=%s" % (
+        c["fmt"], c["style"], c["mode"], inv, c["sep"], c["final"], c["last"], row["obs"]["outcome"], c["src"])
 
 
 def run(tier, v):
@@ -67,7 +70,7 @@ def run(tier, v):
             args += ["-random", str(nrand), "-mode", "c07"]
         vlib.run_driver(b, args, timeout=3000)
         rows, ts, nb = al.validate(v, trace, sig, "real provider diverges from AmmoFormats.Expected",
-                                   heap="16g" if thorough else "6g", workers=16 if thorough else 8, timeout=3000)
+                                   heap="16g" if thorough else "6g", workers=16 if thorough else 8, timeout=3000, case_files=batch)
         tstates += ts
         bad += nb
         rows_all += [al.brief_case(r) | {"delivered": len(r["obs"]["deliv"]), "first": (r["obs"]["deliv"] or [None])[0]}
@@ -98,7 +101,7 @@ def run(tier, v):
     }
     return "model_checking", cov, [
         "renderers (abstract file -> bytes) are faithful to docs/eng/providers.md and mirror RenderItem of AmmoFormats.tla (trusted base)",
-        "well-formed files only, provider option `headers` empty, one consumer; bodies > 64 bytes compared by length + SHA-256 prefix",
+        "well-formed files only, provider option `headers` empty, one consumer; bodies > 64 bytes and strings > 128 bytes compared by length + SHA-256 prefix",
         "exhaustive part bounded to <= %d items per file over small pools; large files sampled (VERIF_SEED)" % (4 if thorough else 3)]
 
 
